@@ -60,7 +60,7 @@ Proof.
   unfold u_neg. rewrite wrap_add_l. replace (pow2 w - a + n) with (n - a + pow2 w) by lia. apply wrap_pow2_add.
 Qed.
 
-Lemma bz_to_v c : to_v (TBool, bz c) = VB c.
+Lemma bz_to_v c : VB (negb (bz c =? 0)) = VB c.
 Proof. destruct c; reflexivity. Qed.
 
 Lemma rem_formula a b : b <> 0 -> a - b * Z.quot a b = Z.rem a b.
@@ -335,12 +335,10 @@ Proof.
   destruct a as [ta va], b as [tb vb]; destruct ta, tb; names; intros Ha Hb Hp Hr; try discriminate.
   all: py_guards Hp; rt_guards Hr; try (inv Hp; inv Hr; rewrite ?sv_in by assumption; rewrite bz_to_v; reflexivity).
   all: try (destruct op; discriminate).
-  - (* Bit = Bit *)
-    inv Hp. inv Hr. rewrite bz_to_v.
-    revert va Ha. apply (fun v H => bit01 v H (fun va => _)); revert vb Hb; apply (fun v H => bit01 v H (fun vb => _));
-      destruct op; try discriminate; reflexivity.
-  - (* BitVector = BitVector of equal width *)
-    inv Hp. inv Hr. rewrite bz_to_v. rewrite P0. destruct op; try discriminate; reflexivity.
+  all: try (inv Hp; inv Hr; rewrite bz_to_v; destruct Ha as [-> | ->], Hb as [-> | ->]; destruct op; try discriminate;
+            reflexivity).
+  (* BitVector = BitVector of equal width *)
+  inv Hp. inv Hr. rewrite bz_to_v. destruct op; try discriminate; reflexivity.
 Qed.
 
 (** ** @ *)
@@ -351,7 +349,10 @@ Proof.
   all: inv Hp; inv Hr; unfold to_v; rewrite ?(N.add_comm 1); try reflexivity.
   all: try (destruct Ha as [-> | ->]; cbn; f_equal; lia).
   all: try (destruct Hb as [-> | ->]; cbn; f_equal; lia).
-  destruct Ha as [-> | ->], Hb as [-> | ->]; reflexivity.
+  all: try (destruct Ha as [-> | ->], Hb as [-> | ->]; reflexivity).
+  all: f_equal; [destruct n as [|q]; [reflexivity|destruct q; reflexivity] | destruct Ha as [-> | ->];
+      [replace (negb (0 =? 0)) with false by reflexivity | replace (negb (1 =? 0)) with true by reflexivity];
+      cbv iota; lia].
 Qed.
 
 (** ** and / or / xor on Unsigned, BitVector and Bit (Signed: covered by the correspondence run) *)
@@ -389,7 +390,7 @@ Proof.
   destruct a as [ta va]; destruct ta; cbn [py_un rt_un to_v eval_unop wf rep unrep]; intros Ha Hp Hr; try discriminate.
   all: inv Hp; inv Hr; unfold to_v; try reflexivity.
   - destruct Ha as [-> | ->]; reflexivity.
-  - f_equal. apply wrap_sval. pose proof (wrap_range n va). unfold ones. lia.
+  - f_equal. symmetry. apply wrap_sval. pose proof (wrap_range n va). unfold ones. lia.
 Qed.
 
 (** ** views *)
@@ -399,7 +400,7 @@ Proof.
   intros Ha [-> | [-> | ->]]; revert Ha;
     destruct a as [ta va]; destruct ta; cbn [py_un rt_un to_v eval_fn1 wf rep]; intros Ha Hp Hr; try discriminate.
   all: inv Hp; inv Hr; unfold to_v; try reflexivity.
-  all: f_equal; try (apply wrap_sval; tauto); apply wrap_sval'.
+  all: f_equal; symmetry; try (apply wrap_sval; tauto); apply wrap_sval'.
 Qed.
 
 (** ** the documented result type (for the operators whose result is a vector or an Integer) *)
@@ -421,3 +422,98 @@ Proof.
   all: try (left; reflexivity); try tauto.
   all: try (match goal with |- context [oty_eqb ?a ?b] => destruct (oty_eqb a b) end); tauto.
 Qed.
+
+(** ** totality: every operand-type combination the emitted operator is defined on is implemented by the fold
+    (it may still reject by assertion, e.g. a result that does not fit; plain int (op) int is not cohdl code) *)
+Definition arith_like (op : bop) : bool :=
+  match op with PAdd | PSub | PMul | PTruncDiv | PMod | PRem | PShl | PShr | PConcat => true | _ => false end.
+Definition cohdl_operands (a b : operand) : bool :=
+  match fst a, fst b with
+  | TPy, TPy | TBool, _ | _, TBool => false
+  | TPy, TInt => false          (* int (op) Integer: Integer defines no reflected operators except + - & | ^ *)
+  | _, _ => true
+  end.
+
+Ltac not_noimpl Hn :=
+  cbv beta delta [mkUv mkSv s_add_int u_truncdiv s_truncdiv u_rem s_rem u_mod s_mod int_div frem fdiv] in Hn;
+  repeat match type of Hn with
+         | (if ?c then _ else _) = _ => destruct c
+         | (match ?c with Some _ => _ | None => _ end) = _ => destruct c
+         | (match ?c with Coded => _ | Fixed => _ end) = _ => destruct c
+         end; discriminate Hn.
+
+(* a Signed shift count has no __index__: the backend never emits to_integer(signed) as a shift count *)
+Definition signed_count (op : bop) (b : operand) : bool :=
+  match op, fst b with (PShl | PShr), TS _ => true | _, _ => false end.
+
+Theorem fold_total_partial m op a b x :
+  arith_like op = true -> cohdl_operands a b = true -> signed_count op b = false ->
+  rt_bin op a b = Ok x -> py_bin m op a b <> NoImpl.
+Proof.
+  destruct a as [ta va], b as [tb vb]; destruct op; intros Ho; try discriminate Ho; clear Ho.
+  all: destruct ta, tb; intros Hc; try discriminate Hc; clear Hc; intros Hs; try discriminate Hs; clear Hs.
+  all: cbn [rt_bin to_v eval_binop arith concat bind slv eval_fn1 eval_fn2]; intros Hr; try discriminate Hr.
+  all: unfold bind in Hr; try (solve [rt_guards Hr]).
+  all: cbn [py_bin py_add py_sub py_rsub py_mul py_truncdiv py_mod py_rem py_shl py_shr py_concat u_add_int
+            shift_count fst snd]; intro Hn; not_noimpl Hn.
+Qed.
+
+(** the guard is needed: std_logic values are ordered in VHDL, Bit defines no ordering *)
+Theorem fold_total_refuted : exists op a b x, rt_bin op a b = Ok x /\ py_bin Coded op a b = NoImpl.
+Proof. exists PLt, (TBit, 0), (TBit, 1), (VB true). split; reflexivity. Qed.
+
+(** ** non-vacuity: the hypotheses of every implication above are satisfiable (with both sides defined) *)
+Ltac witness := repeat split; try (vm_compute; intuition congruence); try (vm_compute; lia); try reflexivity.
+
+Example add_nonvacuous : exists a b t v x, wf a /\ wf b /\ py_add a b = Value t v /\ rt_bin PAdd a b = Ok x.
+Proof. exists (TS 4, -3), (TPy, 7), (TS 4), 4, (VV KSgn 4 4). witness. Qed.
+Example sub_nonvacuous : exists a b t v x,
+  wf a /\ wf b /\ sub_guard a b = true /\ py_sub Coded a b = Value t v /\ rt_bin PSub a b = Ok x.
+Proof. exists (TU 2, 1), (TU 4, 3), (TU 4), 14, (VV KUns 4 14). witness. Qed.
+Example sub_fixed_nonvacuous : exists a b t v x, wf a /\ wf b /\ py_sub Fixed a b = Value t v /\ rt_bin PSub a b = Ok x.
+Proof. exists (TU 4, 5), (TU 2, 1), (TU 4), 4, (VV KUns 4 4). witness. Qed.
+Example mul_nonvacuous : exists a b t v x,
+  wf a /\ wf b /\ mul_guard Coded a b = true /\ py_mul Coded a b = Value t v /\ rt_bin PMul a b = Ok x.
+Proof. exists (TS 3, -4), (TPy, 3), (TS 6), (-12), (VV KSgn 6 52). witness. Qed.
+Example mul_fixed_nonvacuous : exists a b t v x,
+  wf a /\ wf b /\ mul_guard Fixed a b = true /\ py_mul Fixed a b = Value t v /\ rt_bin PMul a b = Ok x.
+Proof. exists (TPy, 3), (TU 4, 2), (TU 8), 6, (VV KUns 8 6). witness. Qed.
+Example truncdiv_nonvacuous : exists a b t v x,
+  wf a /\ wf b /\ py_truncdiv Coded a b = Value t v /\ rt_bin PTruncDiv a b = Ok x.
+Proof. exists (TS 4, -7), (TPy, 2), (TS 4), (-3), (VV KSgn 4 13). witness. Qed.
+Example truncdiv_inexact_reachable : exists a b, wf a /\ wf b /\ py_truncdiv Coded a b = Inexact
+  /\ rt_bin PTruncDiv a b = Ok (VV KSgn 64 (2 ^ 62 + 1)).
+Proof. exists (TS 64, 2 ^ 62 + 1), (TS 64, 1). witness. Qed.
+Example rem_inexact_reachable : exists a b, wf a /\ wf b /\ py_rem Coded a b = Inexact
+  /\ rt_bin PRem a b = Ok (VV KUns 64 1).
+Proof. exists (TU 64, 2 ^ 63 + 3), (TPy, 2). witness. Qed.
+Example floordiv_nonvacuous : exists a b t v x,
+  wf a /\ wf b /\ py_floordiv Coded a b = Value t v /\ rt_bin PFloorDiv a b = Ok x.
+Proof. exists (TU 4, 13), (TU 2, 3), (TU 4), 4, (VV KUns 4 4). witness. Qed.
+Example mod_nonvacuous : exists a b t v x, wf a /\ wf b /\ py_mod a b = Value t v /\ rt_bin PMod a b = Ok x.
+Proof. exists (TS 4, -7), (TS 3, 3), (TS 3), 2, (VV KSgn 3 2). witness. Qed.
+Example rem_nonvacuous : exists a b t v x, wf a /\ wf b /\ py_rem Coded a b = Value t v /\ rt_bin PRem a b = Ok x.
+Proof. exists (TS 4, -7), (TS 3, 3), (TS 3), (-1), (VV KSgn 3 7). witness. Qed.
+Example shl_nonvacuous : exists a b t v x, wf a /\ wf b /\ py_shl a b = Value t v /\ rt_bin PShl a b = Ok x.
+Proof. exists (TS 4, 3), (TU 2, 2), (TS 4), (-4), (VV KSgn 4 12). witness. Qed.
+Example shr_nonvacuous : exists a b t v x, wf a /\ wf b /\ py_shr a b = Value t v /\ rt_bin PShr a b = Ok x.
+Proof. exists (TS 4, -8), (TPy, 5), (TS 4), (-1), (VV KSgn 4 15). witness. Qed.
+Example cmp_nonvacuous : exists a b t v x,
+  wf a /\ wf b /\ py_cmp OLt a b = Value t v /\ eval_binop OLt (to_v a) (to_v b) = Ok x.
+Proof. exists (TS 4, -1), (TPy, 0), TBool, 1, (VB true). witness. Qed.
+Example concat_nonvacuous : exists a b t v x, wf a /\ wf b /\ py_concat a b = Value t v /\ rt_bin PConcat a b = Ok x.
+Proof. exists (TU 2, 1), (TS 2, -1), (TBV 4), 7, (VV KSlv 4 7). witness. Qed.
+Example logic_nonvacuous : exists a b t v x,
+  wf a /\ wf b /\ not_signed a = true /\ py_logic OXor a b = Value t v /\ logic OXor (to_v a) (to_v b) = Ok x.
+Proof. exists (TU 4, 5), (TU 4, 3), (TU 4), 6, (VV KUns 4 6). witness. Qed.
+Example neg_nonvacuous : exists a t v x, wf a /\ py_un MNeg a = Value t v /\ rt_un MNeg a = Ok x.
+Proof. exists (TS 4, -8), (TS 4), (-8), (VV KSgn 4 8). witness. Qed.
+Example abs_nonvacuous : exists a t v x, wf a /\ py_un MAbs a = Value t v /\ rt_un MAbs a = Ok x.
+Proof. exists (TS 4, -5), (TS 4), 5, (VV KSgn 4 5). witness. Qed.
+Example inv_nonvacuous : exists a t v x, wf a /\ py_un MInv a = Value t v /\ rt_un MInv a = Ok x.
+Proof. exists (TS 3, 1), (TS 3), (-2), (VV KSgn 3 6). witness. Qed.
+Example view_nonvacuous : exists a t v x, wf a /\ py_un MAsS a = Value t v /\ rt_un MAsS a = Ok x.
+Proof. exists (TU 3, 7), (TS 3), (-1), (VV KSgn 3 7). witness. Qed.
+Example total_nonvacuous : exists op a b x,
+  arith_like op = true /\ cohdl_operands a b = true /\ signed_count op b = false /\ rt_bin op a b = Ok x.
+Proof. exists PMul, (TPy, 3), (TU 4, 2), (VV KUns 8 6). witness. Qed.
